@@ -273,8 +273,15 @@ def run_model(lines, timeout=3000):
     """Same command as Ctx.run_model("Monitor", lines); usable from worker processes."""
     data = "\n".join(lines) + "\n"
     cmd = ["lake", "env", "lean", "--run", os.path.join("Drivers", "Monitor.lean")]
-    p = subprocess.run(cmd, cwd=LEAN, input=data, text=True, timeout=timeout,
-                       stdout=subprocess.PIPE, stderr=subprocess.PIPE)
+    for attempt in range(6):
+        p = subprocess.run(cmd, cwd=LEAN, input=data, text=True, timeout=timeout,
+                           stdout=subprocess.PIPE, stderr=subprocess.PIPE)
+        if p.returncode == 0:
+            break
+        # another check may be rebuilding the shared library right now (.olean files are replaced
+        # under its build lock): wait for it and try again; a real failure persists
+        import time as _t
+        _t.sleep(5 * (attempt + 1))
     if p.returncode != 0:
         raise RuntimeError("model driver Monitor failed: %s\n%s" % (p.stderr[-2000:], p.stdout[-2000:]))
     out = p.stdout.split("\n")
